@@ -431,7 +431,19 @@ def c32(ck, F, tier):
     guarded(ck, rw.names_rules, F)
 
 
-PROPS = {"C08": c08, "C32": c32, "C30": c30, "C27": c27, "C31": c31, "C33": c33, "C12": c12, "C13": c13, "C14": c14, "C15": c15, "C16": c16, "C09": c09, "C22": c22, "C34": c34, "C21": c21, "C05": c05, "C28": c28, "C10": c10, "C29": c29, "C17": c17, "C01": c01, "C02": c02, "C03": c03, "C04": c04, "C23": c23, "C26": c26}
+def c18(ck, F, tier):
+    import rules_attr as ra
+    ck.explanation = (
+        "Static decision of reader/writer configuration agreement: for booleans, errors and numbers, the Language/Locale "
+        "fields consulted (transitively through local callees) on the display side (Cell::get_localized_text, "
+        "to_localized_error_string) are also consulted on the branch of Model::set_user_input that recognises that kind of "
+        "value; the quote prefix is read by the display side and set by the input side. That the recognisers invert the "
+        "printers on every string/number is not decided.")
+    ck.rule("TABLE-io", "display and input consult the same language/locale tables per value kind", floor=6)
+    guarded(ck, ra.table_io, F)
+
+
+PROPS = {"C08": c08, "C18": c18, "C32": c32, "C30": c30, "C27": c27, "C31": c31, "C33": c33, "C12": c12, "C13": c13, "C14": c14, "C15": c15, "C16": c16, "C09": c09, "C22": c22, "C34": c34, "C21": c21, "C05": c05, "C28": c28, "C10": c10, "C29": c29, "C17": c17, "C01": c01, "C02": c02, "C03": c03, "C04": c04, "C23": c23, "C26": c26}
 
 
 def run(pid, tier):
